@@ -35,7 +35,7 @@ def gen_sep(rng, L, style=None):
     elif style == "corner":
         s = [rng.choice([-1, 1]) * (L / 2 - eps * rng.uniform(0.5, 2)) for _ in range(3)]
     elif style == "origin":
-        f = 10 ** rng.uniform(-4, -1)
+        f = 10 ** (rng.uniform(-4, -1) if rng.random() < 0.5 else rng.uniform(-15, -4))
         s = [c * f for c in s]
     elif style == "axis":
         k = rng.randrange(3)
@@ -230,6 +230,24 @@ def check_merged(acc, rng, npoints, flavor):
         s, style = gen_sep(rng, L)
         r = math.sqrt(sum(c * c for c in s))
         if r < 1e-5 * L:
+            # next to the origin the lattice sum is the bare pair term plus a smooth remainder: the periodic potential is
+            # 1/r + psi(r) with grad psi(0) = 0 and |grad psi| <= (4 pi / 3) r / L^3 (1 + O(r^2/L^2)) (neutralising
+            # background), so D = q s_d / r^3 up to 10 |q| r / L^3 - a closed form that needs no Ewald oracle
+            if r == 0.0:
+                continue
+            d = rng.randrange(3)
+            c1, c2 = rng.choice([1.0, -1.0, 0.41]), rng.choice([1.0, -0.82])
+            vel = [0.0] * 3
+            vel[d] = 1.0
+            got = pot.derivative(vel, list(s), c1, c2)
+            want = pref * c1 * c2 * s[d] / r ** 3
+            acc.case(("merged-origin", L, tuple(s), d), nontrivial=True)
+            acc.count("merged_points_next_to_origin")
+            if not abs(got - want) <= 1e-9 * abs(pref * c1 * c2) / r ** 2 + 10.0 * abs(pref * c1 * c2) * r / L ** 3:
+                acc.violation("C03:derivative-differs-from-energy-gradient",
+                              f"merged-image Coulomb (L={L}) at |s| = {r:.3e}: derivative(v={vel}, s={s}, c={c1, c2}) = {got!r}, "
+                              f"the pair term q s_d/r^3 that dominates there is {want!r}",
+                              {"kind": "merged_origin", "L": L, "s": [x.hex() for x in s], "d": d, "c": [c1, c2], "pref": pref})
             continue
         d = rng.randrange(3)
         c1, c2 = rng.choice([1.0, -1.0, 0.41, -0.82]), rng.choice([1.0, -1.0, 0.41])
